@@ -6,6 +6,23 @@ package types
 
 //@ spec psumS(s []Signal, lo int, hi int) Int = hi <= lo ? 0 : psumS(s, lo, hi-1) + s[hi-1].Power
 
+// C07: the sum of a vote's signal powers is the mathematical sum (no wrap-around).
 //@ func SumPower
 //@ ensures sum == psumS(signals, 0, len(signals))
 //@ loop 0: invariant sum == psumS(signals, 0, #i)
+
+// C07: interval formula.
+//@ func CalculateInterval
+//@ requires powerStep > 0 && minInterval > 0 && maxInterval > 0
+//@ ensures  power <  powerStep ==> interval == 0
+//@ ensures  power >= powerStep ==> interval == max(maxInterval / (power / powerStep), minInterval)
+//@ ensures  power >= powerStep ==> interval >= minInterval && interval <= max(maxInterval, minInterval)
+
+//@ func CalculateDeviation
+//@ requires powerStep > 0 && minDeviationBP > 0 && maxDeviationBP > 0
+//@ ensures  power <  powerStep ==> deviation == 0
+//@ ensures  power >= powerStep ==> deviation == max(maxDeviationBP / (power / powerStep), minDeviationBP)
+
+// C07: a valid signal has a non-empty bounded id and positive power.
+//@ func (s *Signal) Validate
+//@ ensures err == nil <==> (len(s.ID) > 0 && s.Power > 0 && len(s.ID) <= MaxSignalIDCharacters)
